@@ -98,6 +98,42 @@ class SimLock(object):
         return False
 
 
+class SimEvent(object):
+    """threading.Event for the system under test: wait() never blocks the baton holder, it hands the
+    baton on until the event is set (or, with a timeout, until nobody else can run / many hand-overs)."""
+
+    def __init__(self):
+        self._flag = False
+
+    def is_set(self):
+        return self._flag
+
+    isSet = is_set
+
+    def set(self):
+        self._flag = True
+
+    def clear(self):
+        self._flag = False
+
+    def wait(self, timeout=None):
+        s = ACTIVE[0]
+        if s is None or s.current is None or threading.current_thread().name != 'sim-%d' % s.current:
+            return self._flag
+        n = 0
+        while not self._flag:
+            n += 1
+            if timeout is not None and n > 200:
+                return False
+            try:
+                s._blocked_on_lock(s.current, sys._getframe(1))
+            except RuntimeError:
+                if timeout is not None:
+                    return False
+                raise
+        return True
+
+
 def wrap_module_locks(modules):
     """Replace the lock objects owned by the given SUT modules by SimLocks: module-level names, class
     attributes, and attributes / items of module-level objects and containers (a private cache object
@@ -144,13 +180,15 @@ def wrap_module_locks(modules):
         def __getattr__(self, name):
             return getattr(threading, name)
     proxy = _ThreadingProxy('threading')
-    proxy.Lock, proxy.RLock = sim_lock, sim_rlock
+    proxy.Lock, proxy.RLock, proxy.Event = sim_lock, sim_rlock, SimEvent
     for mod in modules:
         for key, val in list(vars(mod).items()):
             if val is real_lock:
                 setattr(mod, key, sim_lock)
             elif val is real_rlock:
                 setattr(mod, key, sim_rlock)
+            elif val is threading.Event:
+                setattr(mod, key, SimEvent)
             elif val is threading:
                 setattr(mod, key, proxy)
     for mod in modules:
